@@ -86,6 +86,10 @@ EXPLANATION += (
     ' Round 14: the helper that makes the path handed to is_exposed returns Path(word minus removed characters) on every path (R-SAMEVAL/word-tested-as-is).'
 )
 
+EXPLANATION += (
+    ' Round 15: a path is never interpolated with !r (R-ROLE/path-in-message/rendered-as-text).'
+)
+
 RULE_TEXT = (
     "one obligation per emitted value (config, log, log file, module), "
     "per removed key, per path interpolation site")
